@@ -1,8 +1,8 @@
 #!/verif/.venv/bin/python
 # Replay of a solver counterexample against the unmodified code (no shims).
-# property=C19 kernel=define label=k2:register_with_permuted_trap_ids_is_refused
+# property=C19 kernel=order label=k1:eq_and_hash_order_independent
 import sys
 sys.path[:0] = ['/repo' + "/pulser-core", '/repo' + "/pulser-simulation", "/verif"]
 from symx.replay import replay
-sys.exit(replay(check='checks.c19', kernel='define', shape={'n': 2, 'dims': 2, 'ids': [1, 0]},
-                assignment={'p0_0': 20, 'p0_1': -500000000, 'p1_0': -5, 'p1_1': -500000000}, label='k2:register_with_permuted_trap_ids_is_refused'))
+sys.exit(replay(check='checks.c19', kernel='order', shape={'n': 2, 'dims': 2, 'perm': [1, 0]},
+                assignment={'p0_0': 15, 'p0_1': -500000000, 'p1_0': -5, 'p1_1': -500000000}, label='k1:eq_and_hash_order_independent'))
